@@ -74,12 +74,9 @@ def _su(s):
     return ["t", [(-1 if x is None else int(x)) for x in s]]
 
 
-def observe(case, props) -> dict:
-    """Run the real parser on the case and project the instrument track for TLC."""
-    load_impl()
-    body = case["body"]
-    rec = {
-        "id": case["id"],
+def _blank(cid, case, body, props) -> dict:
+    return {
+        "id": cid,
         "props": list(props),
         "res": case["res"],
         "nl": [{"t": it[1], "i": it[2], "l": it[3]} for it in body if it[0] == "N"],
@@ -90,19 +87,13 @@ def observe(case, props) -> dict:
         "last": [],
         "kind": "nt",
         "pmin": -1,
+        "again": [],
         "first": True,      # the record contains the section's first note (windows of a long section: only the first one)
     }
-    kind, val = outcome(case_text(case))
-    if kind == "raise":
-        rec["raised"] = type(val).__name__
-        rec["msg"] = str(val)[:200]
-        return rec
-    chart = val
-    tracks = [t for _, dd in chart.instrument_tracks.items() for _, t in dd.items()]
-    if len(tracks) != 1:
-        rec["raised"] = "NoTrack"
-        return rec
-    tr = tracks[0]
+
+
+def _project(rec, chart, tr):
+    """Fill a record with the observed state of one parsed instrument track."""
     bpm = chart.sync_track.bpm_events
     for e in tr.note_events:
         rec["notes"].append({
@@ -121,7 +112,68 @@ def observe(case, props) -> dict:
     rec["sp"] = [{"t": int(e.tick), "l": int(e.sustain)} for e in tr.star_power_events]
     last = tr.last_note_end_timestamp
     rec["last"] = [] if last is None else [limbs(td_us(last))]
+    # the note list once more, after the track's derived attributes, a rate query and the rendering have been read: the
+    # section's events are what they are whenever they are looked at
+    for f in (lambda: chart.notes_per_second(tr.instrument, tr.difficulty), lambda: str(tr), lambda: tr == tr, lambda: str(chart)):
+        try:
+            f()
+        except Exception:  # noqa: BLE001
+            pass
+    rec["again"] = [{"t": int(e.tick), "lanes": [int(x) for x in e.note.value]} for e in tr.note_events]
     return rec
+
+
+def observe(case, props) -> dict:
+    """Run the real parser on the case and project the instrument track for TLC."""
+    load_impl()
+    rec = _blank(case["id"], case, case["body"], props)
+    kind, val = outcome(case_text(case))
+    if kind == "raise":
+        rec["raised"] = type(val).__name__
+        rec["msg"] = str(val)[:200]
+        return rec
+    chart = val
+    tracks = [t for _, dd in chart.instrument_tracks.items() for _, t in dd.items()]
+    if len(tracks) != 1:
+        rec["raised"] = "NoTrack"
+        return rec
+    return _project(rec, chart, tracks[0])
+
+
+def multi_text(case) -> str:
+    return chart_text(
+        res=case["res"],
+        song=case.get("song"),
+        sync=sync_lines(case.get("tempo") or [[0, 120000]]),
+        tracks={h: render_body(b) for h, b in case["tracks"]},
+    )
+
+
+def observe_multi(case, props) -> list:
+    """A chart with SEVERAL instrument sections (case["tracks"] = [(header, body), ...] in file order): one real parse,
+    one record per section.  What a section means depends on its own lines, the resolution and the tempo map only, so
+    every section is judged exactly as if it were alone in the file."""
+    from chartgen import HEADER_KEY
+    load_impl()
+    recs = [_blank(f"{case['id']}@{h}", case, b, props) for h, b in case["tracks"]]
+    kind, val = outcome(multi_text(case))
+    if kind == "raise":
+        for rec in recs:
+            rec["raised"] = type(val).__name__
+            rec["msg"] = str(val)[:200]
+        return recs
+    chart = val
+    found = {(i.name, d.name): t for i, dd in chart.instrument_tracks.items() for d, t in dd.items()}
+    for rec, (h, _) in zip(recs, case["tracks"]):
+        tr = found.get(HEADER_KEY[h])
+        if tr is None:
+            rec["raised"] = "NoTrack"
+        else:
+            _project(rec, chart, tr)
+    if len(found) != len(recs):
+        for rec in recs:
+            rec["raised"] = rec["raised"] or "ExtraTrack"
+    return recs
 
 
 def observe_windows(case, props, window=60):
@@ -148,7 +200,8 @@ def observe_windows(case, props, window=60):
         t_lo = nl[lo]["t"] if w > 0 else -1
         t_hi = nl[hi]["t"] if hi < len(nl) else None
         mine = [n for n in notes if n["t"] >= t_lo and (t_hi is None or n["t"] < t_hi)]
-        r2 = dict(rec, id=f"{rec['id']}#w{w}", nl=nl[lo:hi], notes=mine, pmin=pmin, first=(w == 0), ph=[], sp=[], last=[])
+        again = [n for n in rec["again"] if n["t"] >= t_lo and (t_hi is None or n["t"] < t_hi)]
+        r2 = dict(rec, id=f"{rec['id']}#w{w}", nl=nl[lo:hi], notes=mine, pmin=pmin, first=(w == 0), ph=[], sp=[], last=[], again=again)
         out.append(r2)
         if mine:
             pmin = max(pmin, max(n["p"] for n in mine))
